@@ -62,7 +62,7 @@ def translate(repo: Path) -> dict:
     for k in need:
         if k not in consts:
             raise T.TranslateError(f"_find_lcas: flag constant {k} not found")
-    # default of min_stamp
+    # default of min_stamp (None = no cut)
     a = fl.args
     names = [x.arg for x in a.args]
     if "min_stamp" not in names:
@@ -71,8 +71,8 @@ def translate(repo: Path) -> dict:
     if di < 0:
         raise T.TranslateError("_find_lcas: min_stamp has no default")
     min_default = T.eval_literal(a.defaults[di])
-    if not isinstance(min_default, int):
-        raise T.TranslateError(f"_find_lcas: min_stamp default {min_default!r} is not an int")
+    if min_default is not None and (not isinstance(min_default, int) or isinstance(min_default, bool)):
+        raise T.TranslateError(f"_find_lcas: min_stamp default {min_default!r} is neither None nor an int")
     # the mask the loop looks at and the two-flag test (the model is written for exactly these)
     mask_ok = both_ok = False
     for n in ast.walk(fl):
@@ -88,23 +88,39 @@ def translate(repo: Path) -> dict:
     if not both_ok:
         raise T.TranslateError("_find_lcas: `cflags == (_ANC_OF_1 | _ANC_OF_2)` not found")
 
-    def passes_min(fname):
-        calls = _find_lcas_calls(T.find_def(tree, fname))
+    # the shape of the callers the model was written for (the code after the C13 fix series)
+    def calls_of(fname, callee):
+        return [n for n in ast.walk(T.find_def(tree, fname)) if isinstance(n, ast.Call)
+                and isinstance(n.func, ast.Name) and n.func.id == callee]
+
+    for fname in ("can_fast_forward", "find_merge_base", "find_octopus_base", "_remove_redundant"):
+        calls = calls_of(fname, "_find_lcas")
         if not calls:
             raise T.TranslateError(f"{fname}: no call of _find_lcas")
-        flags = {any(k.arg == "min_stamp" for k in c.keywords) or len(c.args) >= 5 for c in calls}
-        if len(flags) != 1:
-            raise T.TranslateError(f"{fname}: calls of _find_lcas differ in passing min_stamp")
-        return flags.pop()
-    ff_min = passes_min("can_fast_forward")
-    mb_min = passes_min("find_merge_base")
-    if passes_min("find_octopus_base"):
-        raise T.TranslateError("find_octopus_base passes min_stamp: model was written without")
+        if any(any(k.arg == "min_stamp" for k in c.keywords) or len(c.args) >= 5 for c in calls):
+            raise T.TranslateError(f"{fname} passes min_stamp to _find_lcas: the model has no date cut there")
+    for fname in ("find_merge_base", "find_octopus_base"):
+        if not calls_of(fname, "_remove_redundant"):
+            raise T.TranslateError(f"{fname} does not call _remove_redundant: the model reduces the result")
+    ff = T.find_def(tree, "can_fast_forward")
+    rets = [n for n in ast.walk(ff) if isinstance(n, ast.Return) and isinstance(n.value, ast.Compare)]
+    if not rets or not all(isinstance(r.value.ops[0], ast.In) and isinstance(r.value.left, ast.Name)
+                           and r.value.left.id == "c1" for r in rets):
+        raise T.TranslateError("can_fast_forward does not end in `return c1 in lcas`")
+    ind = T.find_def(tree, "independent")
+    if not any(isinstance(n, ast.Attribute) and n.attr == "fromkeys" for n in ast.walk(ind)):
+        raise T.TranslateError("independent does not remove duplicate ids (dict.fromkeys)")
+    if not any(isinstance(n, ast.Compare) and isinstance(n.ops[0], ast.Eq) and isinstance(n.left, ast.Name)
+               and n.left.id == "merge_bases" for n in ast.walk(ind)):
+        raise T.TranslateError("independent: `merge_bases == [commit_id]` not found")
+    rr = T.find_def(tree, "_remove_redundant")
+    if not any(isinstance(n, ast.Attribute) and n.attr == "fromkeys" for n in ast.walk(rr)):
+        raise T.TranslateError("_remove_redundant does not remove duplicates (dict.fromkeys)")
     wtree = T.module_ast(repo / "dulwich" / "walk.py")
     max_extra = T.const_value(wtree, "_MAX_EXTRA_COMMITS")
     if not isinstance(max_extra, int) or max_extra < 0:
         raise T.TranslateError(f"_MAX_EXTRA_COMMITS = {max_extra!r}")
-    b = lambda x: "true" if x else "false"
+    lean_min = "none" if min_default is None else f"some ({min_default})"
     src = T.lean_header("dulwich/graph.py: _find_lcas flag constants, min_stamp default, call shapes; "
                         "dulwich/walk.py: _MAX_EXTRA_COMMITS") + f"""
 namespace Dulwich.Gen
@@ -117,11 +133,7 @@ def lcaDnc : Nat := {consts['_DNC']}
 /-- `_LCA` in `_find_lcas` -/
 def lcaLca : Nat := {consts['_LCA']}
 /-- default of the `min_stamp` parameter of `_find_lcas` -/
-def lcaDefaultMinStamp : Int := {min_default}
-/-- `can_fast_forward` passes `min_stamp=lookup_stamp(c1)` to `_find_lcas` -/
-def ffPassesMinStamp : Bool := {b(ff_min)}
-/-- `find_merge_base` passes a `min_stamp` to `_find_lcas` -/
-def mergeBasePassesMinStamp : Bool := {b(mb_min)}
+def lcaDefaultMinStamp : Option Int := {lean_min}
 /-- `_MAX_EXTRA_COMMITS` in walk.py -/
 def walkMaxExtraCommits : Nat := {max_extra}
 end Dulwich.Gen
@@ -314,6 +326,25 @@ def classify_lcas(h: Hist, c1, c2s, got, cls_name=CLS_LCA):
     if gs > truth and all(ca >> x & 1 for x in gs) and h.nonmono_edge(rel):
         return (f"non-maximal common ancestor(s) {sorted(gs - truth)} reported besides {sorted(truth)}", cls_name)
     return f"got {sorted(gs)}, graph answer {sorted(truth)}", None
+
+
+def classify_raw_lcas(h: Hist, c1, c2s, got):
+    """`_find_lcas` itself (before `_remove_redundant`): distinct common ancestors including every maximal one on
+    every clock; exactly the maximal ones when stamps strictly increase along every edge among the ancestors."""
+    if isinstance(got, str):
+        return f"raised {got}", None
+    truth = h.lcas(c1, c2s)
+    gs = set(got)
+    if len(gs) != len(got):
+        return f"duplicate entries in {got}", None
+    ca = h.A[c1] & h.reach(c2s)
+    if not all(ca >> x & 1 for x in gs):
+        return f"reports {sorted(x for x in gs if not ca >> x & 1)}: not common ancestors", None
+    if not truth <= gs:
+        return f"misses maximal common ancestor(s) {sorted(truth - gs)}", None
+    if gs != truth and not h.nonmono_edge(h.A[c1] | h.reach(c2s)):
+        return f"raw result {sorted(gs)} is not reduced although stamps strictly increase (answer {sorted(truth)})", None
+    return None
 
 
 def classify_ff(h: Hist, c1, c2, got):
@@ -553,18 +584,21 @@ def _eval_small_chunk(args):
             got = impl_lcas(h, c1, c2s, m)
             answers.append(got if isinstance(got, str) else showl(got))
             nq += 1
+            # oracle: the raw result contains every maximal common ancestor and only common ancestors (any
+            # clock); `c1 in result` is the ancestry test can_fast_forward makes.  An explicit min_stamp is a
+            # parameter of `_find_lcas` no caller uses any more: correspondence only.
+            rs = []
             if m is None:
-                r = classify_lcas(h, c1, c2s, got)
-                kind = "lcas"
-            else:
-                ff = got if isinstance(got, str) else (got == [c1])
-                r = classify_ff(h, c1, c2s[0], ff)
-                kind = "ff"
-            if r is not None:
-                t = f"{kind}:{r[1] or 'UNCLASSIFIED'}"
-                tags[t] = tags.get(t, 0) + 1
-                if len(fails) < 40 or r[1] is None:
-                    fails.append((h.case(), _q_str(q), answers[-1], r[0], r[1]))
+                rs.append(("lcas", classify_raw_lcas(h, c1, c2s, got)))
+                if len(c2s) == 1:
+                    ff = got if isinstance(got, str) else (c1 in got)
+                    rs.append(("ff", classify_ff(h, c1, c2s[0], ff)))
+            for kind, r in rs:
+                if r is not None:
+                    t = f"{kind}:{r[1] or 'UNCLASSIFIED'}"
+                    tags[t] = tags.get(t, 0) + 1
+                    if len(fails) < 40 or r[1] is None:
+                        fails.append((h.case(), _q_str(q), answers[-1], r[0], r[1]))
         lines.append("c13.q " + h.enc() + " " + " ".join(_q_str(q) for q in qs))
         meta.append((h, qs, ";".join(answers)))
     p = subprocess.run([driver_exe], input=("\n".join(lines) + "\n").encode(), stdout=subprocess.PIPE,
@@ -613,6 +647,10 @@ def _stream_small(ctx, stream="small.lcas"):
         cases = list(_small_cases(n, "labelled"))
         per_n[n] = len(cases)
         total += len(cases)
+        # the same histories with the clock shifted below zero (all of them up to 3 commits, a sample of 4)
+        shifted = [(P, tuple(t - 2 for t in ts)) for (P, ts) in cases if n <= 3 or ctx.rng.random() < 0.1]
+        per_n[f"{n} shifted below 0"] = len(shifted)
+        cases = cases + shifted
         for i in range(0, len(cases), 1500):
             jobs.append((cases[i:i + 1500], exe))
     if ctx.thorough:
@@ -748,6 +786,13 @@ def gen_stamps(rng, P, mode: str):
             ts[c] = (max((ts[p] for p in P[c]), default=0) + rng.randint(1, 3))
         m = max(ts)
         ts = [m - t for t in ts]
+    elif mode == "negative":
+        for c in range(n):
+            ts[c] = (max((ts[p] for p in P[c]), default=0) + rng.randint(0, 3))
+        off = rng.randint(1, max(ts) + 2)
+        ts = [t - off for t in ts]
+        if rng.random() < 0.5:
+            rng.shuffle(ts)
     elif mode == "small":
         ts = [rng.randrange(3) for _ in range(n)]
     else:  # random
@@ -756,7 +801,7 @@ def gen_stamps(rng, P, mode: str):
 
 
 SHAPES = ["random", "random", "crisscross", "crisscross", "octopus", "multiroot", "branchy", "chain"]
-STAMPS = ["strict", "strict", "strict", "weak", "equal", "skew", "skew1", "reverse", "small", "random"]
+STAMPS = ["strict", "strict", "strict", "weak", "equal", "skew", "skew1", "reverse", "small", "random", "negative"]
 
 
 def gen_hist(rng, big=False):
@@ -789,8 +834,9 @@ def gen_walk_opts(rng, h: Hist, allow_excl=True):
     if allow_excl and rng.random() < 0.5:
         excl = sorted(set(pick_ids(rng, h, rng.choice([1, 1, 2]))))
     lo, hi = min(h.ts), max(h.ts)
-    since = rng.randint(max(0, lo - 1), hi + 1) if rng.random() < 0.25 else None
-    until = rng.randint(max(0, lo - 1), hi + 1) if rng.random() < 0.25 else None
+    lo_ = lo - 1 if lo < 0 else max(0, lo - 1)
+    since = rng.randint(lo_, hi + 1) if rng.random() < 0.25 else None
+    until = rng.randint(lo_, hi + 1) if rng.random() < 0.25 else None
     mx = rng.choice([0, 1, 2, 3, 5, 6, 7, h.n, h.n + 3]) if rng.random() < 0.3 else None
     return {"incl": incl, "excl": excl, "topo": rng.random() < 0.5, "rev": rng.random() < 0.35, "max": mx,
             "since": since, "until": until}
@@ -915,6 +961,8 @@ def _stream_repo_small(ctx):
             for ts in weak_orders(n):
                 if n == 4 and not ctx.thorough and rng.random() < 0.5:
                     continue
+                if rng.random() < 0.2:   # pre-1970 clocks
+                    ts = tuple(t - rng.randint(1, 2) for t in ts)
                 h0 = Hist(P, ts)
                 rh = RealHist(h0, nonce=rng.randrange(4))
                 qs = []
@@ -990,8 +1038,8 @@ def _stream_core_random(ctx):
             ctx.count("core.random", (h.enc(), _q_str(q)), True, tag)
             if _show_ans(got) != m:
                 ctx.disagree("core.random", {"history": h.case(), "query": _q_str(q)}, m, _show_ans(got), "_find_lcas")
-            if not neg and (mn is None or mn <= min(h.ts)):
-                r = classify_lcas(h, c1, c2s, got)
+            if mn is None or mn <= min(h.ts):
+                r = classify_raw_lcas(h, c1, c2s, got)
                 if r is not None:
                     _record_fail(ctx, "core.random", h.case(), _q_str(q), _show_ans(got), r[0], r[1])
 
@@ -1099,6 +1147,8 @@ def _stream_git(ctx):
     notes = {}
     for idx in range(nh):
         shape, mode, h0 = gen_hist(rng, big=rng.random() < 0.25)
+        while min(h0.ts) < 0:   # C git reads commit times as unsigned
+            shape, mode, h0 = gen_hist(rng, big=rng.random() < 0.25)
         if idx == 0:   # the two F14 witnesses always go to git as well
             h0, shape, mode = Hist([[], [0], [1], [0, 2]], [5, 5, 5, 5]), "F14", "equal"
         if idx == 1:
@@ -1205,10 +1255,7 @@ def _eval_case(ctx, stream, c: dict):
         c2s = [int(x) for x in parts[2].split(",")] if parts[2] != "-" else []
         mn = None if parts[3] == "d" else int(parts[3])
         got = impl_lcas(h, c1, c2s, mn)
-        if c.get("as_ff"):
-            r = classify_ff(h, c1, c2s[0], got if isinstance(got, str) else got == [c1])
-        else:
-            r = classify_lcas(h, c1, c2s, got)
+        r = classify_raw_lcas(h, c1, c2s, got) if mn is None else None
         mo = ctx.driver.batch(["c13.q " + h.enc() + " " + q])[0]
         return mo, _show_ans(got), r, h.case()
     rh = RealHist(h, nonce=c.get("nonce", 0))
@@ -1250,6 +1297,8 @@ def run(ctx: core.Ctx):
         "Walker paths/follow/rename detection are not modelled or exercised; since/until/max_entries/exclude/"
         "order/reverse are",
         "walks with excludes or `since` are claimed exact only for monotone stamps (parent <= child), as the property says",
+        "the model is the code after the C13 fix series (min_stamp=None default, `c1 in lcas`, _remove_redundant, "
+        "dict.fromkeys in independent); the translator refuses any other shape of these callers",
     ]
     t0 = time.time()
     _run_corpus(ctx)
@@ -1288,14 +1337,12 @@ def search(ctx: core.Ctx):
                     for c1 in range(n):
                         for c2 in range(n):
                             got = impl_lcas(h, c1, [c2])
-                            r = classify_lcas(h, c1, [c2], got)
+                            r = classify_raw_lcas(h, c1, [c2], got)
                             if r:
                                 _record_fail(ctx, "search.lcas", h.case(), f"L:{c1}:{c2}:d", _show_ans(got), r[0], r[1])
-                            if c1 != c2:
-                                got = impl_lcas(h, c1, [c2], h.ts[c1])
-                                r = classify_ff(h, c1, c2, got if isinstance(got, str) else got == [c1])
-                                if r:
-                                    _record_fail(ctx, "search.ff", h.case(), f"L:{c1}:{c2}:{h.ts[c1]}", _show_ans(got), r[0], r[1])
+                            r = classify_ff(h, c1, c2, got if isinstance(got, str) else c1 in got)
+                            if r:
+                                _record_fail(ctx, "search.ff", h.case(), f"L:{c1}:{c2}:d", _show_ans(got), r[0], r[1])
                     if len(ctx.oracle_failures) > 20:
                         return
     if ctx.oracle_failures:
@@ -1358,10 +1405,13 @@ def replay(ctx: core.Ctx, data: dict) -> int:
         got = impl_lcas(h, c1, c2s, mn)
         print("real _find_lcas ->", got, "| graph answer:", sorted(h.lcas(c1, c2s)),
               "| c1 ancestor of c2:", [h.is_anc(c1, x) for x in c2s])
+        r = None
         if mn is None:
-            r = classify_lcas(h, c1, c2s, got)
+            r = classify_raw_lcas(h, c1, c2s, got)
+            if r is None and len(c2s) == 1:
+                r = classify_ff(h, c1, c2s[0], got if isinstance(got, str) else c1 in got)
         else:
-            r = classify_ff(h, c1, c2s[0], got if isinstance(got, str) else got == [c1])
+            print("explicit min_stamp: correspondence only, no oracle")
     else:
         # repo level: ids in the stored history are SHA ranks of the commits that were built then
         rh = None
